@@ -42,3 +42,28 @@ package internalsrv
 //@ // against exactly that contract (safety and an empty frame), so that assumption is a proved fact
 //@ use @verif/specs/stdlib.spec:stdlib
 //@ func isInternalRedirect
+
+//@ unit internal_writer frames=on props=C03,C12 filter=`internalsrv\.internalResponseWriter\)\.(WriteHeader|Write)$`
+//@ // C03: while a response carries the internal-redirect header nothing of it reaches the client - neither its status line
+//@ // nor a byte of its body (the handler replays the request on the internal location instead); any other response passes
+//@ // through unchanged, once. redir is what isInternalRedirect answered for this very writer.
+//@ ghost fwdHeaders int
+//@ ghost fwdWrites int
+//@ ghost redir int
+//@ func isInternalRedirect
+//@ extern invoke:(net/http.ResponseWriter).WriteHeader
+//@   modifies ghost:fwdHeaders
+//@   ensures fwdHeaders == old(fwdHeaders) + 1
+//@ extern invoke:(net/http.ResponseWriter).Write
+//@   modifies ghost:fwdWrites
+//@   ensures fwdWrites == old(fwdWrites) + 1
+//@ func (internalResponseWriter).WriteHeader
+//@   requires w.ResponseWriterWrapper != nil
+//@   modifies ghost:fwdHeaders, ghost:redir
+//@   at call isInternalRedirect do redir = ite(result, 1, 0)
+//@   ensures [status_line_withheld_exactly_for_internal_redirects] (redir == 1 ==> fwdHeaders == old(fwdHeaders)) && (redir == 0 ==> fwdHeaders == old(fwdHeaders) + 1) && (redir == 0 || redir == 1)
+//@ func (internalResponseWriter).Write
+//@   requires w.ResponseWriterWrapper != nil
+//@   modifies ghost:fwdWrites, ghost:redir
+//@   at call isInternalRedirect do redir = ite(result, 1, 0)
+//@   ensures [body_withheld_exactly_for_internal_redirects] (redir == 1 ==> (fwdWrites == old(fwdWrites) && result0 == 0 && result1 == nil)) && (redir == 0 ==> fwdWrites == old(fwdWrites) + 1) && (redir == 0 || redir == 1)
